@@ -1,5 +1,5 @@
 (* Lemmas for C12 (Props/C12.v): the global-heap writer/reader model of Model/GHeap.v. *)
-From HV Require Import Base.Prelude Model.GHeap.
+From HV Require Import Base.Prelude Model.GHeap Model.GHeapTie.
 
 Local Open Scope N_scope.
 
@@ -215,6 +215,7 @@ Proof.
     rewrite !unle_le by (cbn; unfold W64 in *; lia).
     assert (HR : blen d <= blen R) by (unfold R; rewrite blen_app; lia).
     destruct (16 + blen R <? 16) eqn:E1; [lia|].
+    destruct (16 + blen R - 16 <? blen d) eqn:E4; [lia|].
     destruct (k =? 0) eqn:E2; [lia|].
     destruct (16 + blen R <? 16 + blen d) eqn:E3; [lia|].
     assert (Hskip : skipn (N.to_nat (16 + align8 (blen d)))
@@ -245,6 +246,7 @@ Proof.
     cbn [parse_objs]. unfold bytes, byte in *. rewrite FL, F0, F8, blen_zeros.
     rewrite !unle_le by (cbn; unfold W64 in *; lia).
     destruct (16 + (free - 16) <? 16) eqn:E1; [lia|].
+    destruct (16 + (free - 16) - 16 <? free - 16) eqn:E2; [lia|].
     cbn [N.eqb].
     rewrite skipn_all_blen.
     + reflexivity.
@@ -901,3 +903,6 @@ Definition ex_check : bool :=
 
 Lemma C12_example_lemma : ex_check = true.
 Proof. vm_compute. reflexivity. Qed.
+
+Lemma params_shipped : params_ok 4096 4096.
+Proof. unfold params_ok. repeat split; try reflexivity; lia. Qed.
